@@ -164,7 +164,7 @@ impl St {
         let mut steps = 0;
         while g2.current_epoch() < target && steps < 80 {
             steps += 1;
-            if !matches!(guarded(|| g2.commit(vec![])), Ok(Ok(_))) || !matches!(guarded(|| g2.apply_pending_commit()), Ok(Ok(_))) {
+            if !matches!(guarded(|| g2.commit(vec![])), Ok(Ok(_))) || !matches!(guarded(|| g2.apply_pending_alt()), Ok(Ok(_))) {
                 return;
             }
             if steps % 3 == 0 && !matches!(guarded(|| g2.write_to_storage()), Ok(Ok(()))) {
@@ -483,7 +483,7 @@ fn history(w: &mut World, st: &mut St, rounds: u64) -> Result<(), String> {
         // the committer applies: both objects hold the same pending commit
         let applied = {
             let g = w.gm(c);
-            guarded(|| g.apply_pending_commit())
+            guarded(|| g.apply_pending_alt())
         };
         match applied {
             Ok(Ok(_)) => {}
@@ -491,7 +491,7 @@ fn history(w: &mut World, st: &mut St, rounds: u64) -> Result<(), String> {
             Err(p) => return Err(format!("PANIC in apply_pending_commit: {p}")),
         }
         if let Some(t) = st.twins.get_mut(&c) {
-            let rt = guarded(|| t.apply_pending_commit().map(|_| ()));
+            let rt = guarded(|| t.apply_pending_alt().map(|_| ()));
             w.out.cov.bump("lockstep_steps");
             if !matches!(rt, Ok(Ok(()))) {
                 w.violate("C06|twin_and_reloaded_disagree_on_result|apply_pending_commit", format!("member {c}: twin {rt:?}"));
